@@ -62,7 +62,7 @@ func (c *TermCtx) IntConstU(v uint64) *Term {
 	return c.ratConst(new(big.Rat).SetInt(new(big.Int).SetUint64(v)), IntSort)
 }
 func (c *TermCtx) IntConstBig(v *big.Int) *Term { return c.ratConst(new(big.Rat).SetInt(v), IntSort) }
-func (c *TermCtx) RealConstInt(v int64) *Term    { return c.ratConst(new(big.Rat).SetInt64(v), RealSort) }
+func (c *TermCtx) RealConstInt(v int64) *Term   { return c.ratConst(new(big.Rat).SetInt64(v), RealSort) }
 func (c *TermCtx) RealConstF(f float64) *Term {
 	r := new(big.Rat)
 	if r.SetFloat64(f) == nil {
